@@ -88,6 +88,14 @@ func main() {
 			}
 		}
 		props.SetWorld(w)
+		if pat := os.Getenv("MCSUM"); pat != "" {
+			// debugging aid: print the summaries of the functions whose name contains MCSUM
+			for _, f := range w.Funcs {
+				if strings.Contains(ir.FuncName(f), pat) {
+					fmt.Fprintln(os.Stderr, "SUMMARY", ir.FuncName(f), "=", w.Summary(f).String())
+				}
+			}
+		}
 		code := runOne(ck, &props.Ctx{W: w, R: r}, *verif, known, seed)
 		if code > exit {
 			exit = code
